@@ -575,7 +575,7 @@ func (eng *Engine) newEnc(lp *LoadedPkg, fn *ssa.Function, fc *FuncContract, pas
 		cells: map[*ssa.Alloc]int{}, fldIDs: map[string]int{}, escaped: escaped, loopMods: loopMods, oblNames: map[string]int{}, assumps: map[string]bool{},
 		siteHits: map[*Site]int{}, siteSeen: map[*Site]int{}, quantFns: map[string]string{}, callResult: map[ssa.Instruction]TV{}, callResultPre: map[ssa.Instruction]TV{}, siteInstrs: map[*Site][]ssa.Instruction{}, compositeKeys: map[string][]compKey{}, arrViews: map[string]arrViewInfo{}, retVals: map[string][]TV{}, loopModsTmp: map[*ssa.BasicBlock]map[string]bool{},
 		floatConsts: map[string]float64{}, floatOpsUsed: map[string]bool{}, cellInst: map[*ssa.Alloc]int{},
-		assumpEffectFree: map[string]bool{}, closureSiteDone: map[*ssa.Function]bool{}, funcOperandDone: map[*ssa.Function]bool{}}
+		assumpEffectFree: map[string]bool{}, usedExterns: map[string]*FuncContract{}, closureSiteDone: map[*ssa.Function]bool{}, funcOperandDone: map[*ssa.Function]bool{}}
 	e.declFloat()
 	return e
 }
